@@ -942,6 +942,15 @@ def rule_ranges(rep, d):
                 if p_[0] == "call" and len(p_) == 2 and p_[1] in (("ref", "size"), ("mem", ("this",), "size")):
                     return ("it", "size")
                 return ("it", ir.show(p_))
+        if t[0] == "bin" and t[1] in ("+", "-") and norm.int_of(norm.deep_uncast(t[3])) is not None:
+            # a position moved by a constant: `cend() - 1`
+            base = val(t[2], depth + 1)
+            k_ = norm.int_of(norm.deep_uncast(t[3]))
+            if k_ == 0:
+                return base
+            if base[0] == "it":
+                return ("it", "%s %s %d" % (base[1], t[1], k_))
+            return ("?", ir.show(t)[:50])
         if t[0] == "call" and len(t) == 2:
             nm = t[1][1] if t[1][0] == "ref" else (t[1][2] if t[1][0] == "mem" and t[1][1] == ("this",) else None)
             if nm in fns:
